@@ -170,6 +170,16 @@ class Unit:
 
     # -- helpers ----------------------------------------------------------
     def src(self, rel):
+        if rel not in self.sources and rel.startswith('gen:rtcsample:'):
+            # the same generator, run on an input trait kept in /verif/gen/samples (exercises generator paths that no
+            # trait of the repository's tests reaches); the verified text is still the generator's output
+            import rtcgen
+            try:
+                text = rtcgen.generate(REPO, rel[len('gen:rtcsample:'):], os.environ.get('VERIF_BUILD', os.path.join(os.path.dirname(os.path.dirname(os.path.abspath(__file__))), 'build')),
+                                       sample_dir=os.path.join(VERIF, 'gen', 'samples'))
+            except rtcgen.GenError as e:
+                raise Undecided(str(e))
+            self.sources[rel] = Source(rel, text)
         if rel not in self.sources and rel.startswith('gen:rtc:'):
             # code generated by the repository's own remoc_macro for the traits of a repository file (lib/rtcgen.py)
             import rtcgen
@@ -410,7 +420,45 @@ class Unit:
                          lines_generated=len(f))
         self.fns.append(rec)
 
-    def expand_select(self, body, rec):
+    def scope_end(self, body, rx, stmt, rec, rule):
+        """R13'': a value bound by the statement matching `rx` lives until the end of the innermost block that encloses
+        that statement (Rust drop scope -- not until its last use).  That block `{ B }` becomes
+        `{ let vscopeK = { B }; STMT vscopeK }`, so that STMT (the explicit end of the value's life, e.g. the release of a
+        strong reference) runs exactly where Rust would drop the value when the block is left normally."""
+        bm = mask(body)
+        m = re.search(rx, bm)
+        if not m:
+            raise Undecided('anchor lost in %s: scope anchor `%s` not found' % (rec.name, rx))
+        if 'b' in m.groupdict() and m.group('b') == '_':
+            # `let _ = EXPR;` does not bind: the value is dropped at the end of this very statement
+            j, d = m.end(), 0
+            while j < len(bm) and not (bm[j] == ';' and d == 0):
+                d += bm[j] in '([{'
+                d -= bm[j] in ')]}'
+                j += 1
+            body = body[:j + 1] + ' ' + stmt + body[j + 1:]
+            rec.rewrites.append(dict(rule=rule, what='`let _ = ..` drops its value at once: `%s` right after the statement `%s`' % (stmt, rx), count=1))
+            return body
+        # innermost enclosing '{'
+        depth, i = 0, m.start()
+        while i >= 0:
+            c = bm[i]
+            if c == '}':
+                depth += 1
+            elif c == '{':
+                if depth == 0:
+                    break
+                depth -= 1
+            i -= 1
+        if i < 0:
+            raise Undecided('%s: no enclosing block for scope anchor' % rec.name)
+        j = match_close(bm, i)
+        k = len([r for r in rec.rewrites if r['rule'] == rule and 'scope' in r['what']])
+        body = body[:i] + '{ let vscope%d = ' % k + body[i:j + 1] + '; ' + stmt + ' vscope%d }' % k + body[j + 1:]
+        rec.rewrites.append(dict(rule=rule, what='end of drop scope made explicit: `%s` at the end of the block enclosing `%s`' % (stmt, rx), count=1))
+        return body
+
+    def expand_select(self, body, rec, optional=False):
         """R23: `tokio::select! { [biased;] PAT = FUT [, if COND] => HANDLER, .. }` -> a nondeterministic choice among the
         enabled branches: `{ let vsel = vselect(); if vsel == 0 [&& COND] { let PAT = FUT; HANDLER } else if .. else { vselect_none() } }`.
         Which branch completes first is the scheduler's business, so every enabled branch may run; `biased` only orders
@@ -470,6 +518,8 @@ class Unit:
             out += ' else { vselect_none() } }'
             body = body[:mt.start()] + out + body[bc + 1:]
             n += 1
+        if n == 0 and optional:
+            return body
         if n == 0:
             raise Undecided('anchor lost in %s: no tokio::select! to expand' % rec.name)
         rec.rewrites.append(dict(rule='R23', what='select! expanded into a nondeterministic choice among its enabled branches', count=n))
@@ -536,10 +586,20 @@ class Unit:
                         raise ScanError('block anchor `%s`: no block directly after the anchor' % opts['block'])
                     loc = dict(header=None, start=bo, fn_kw=mm.start(), body_open=bo, body_close=match_close(s.m, bo))
             else:
-                loc = s.find_fn(ty, fn, impl_re=opts.get('impl'), nth=int(opts['nth']) if 'nth' in opts else None)
+                try:
+                    loc = s.find_fn(ty, fn, impl_re=opts.get('impl'), nth=int(opts['nth']) if 'nth' in opts else None)
+                except ScanError:
+                    # R26: Rust method resolution -- an impl that does not define a method gets the trait's provided
+                    # (default) method; `trait=<Name>` names the trait whose impl for `ty` is being looked at
+                    if 'trait' not in opts:
+                        raise
+                    loc = s.find_trait_default(opts['trait'], fn)
+                    resolved_default = True
         except (ScanError, ValueError) as e:
             raise Undecided('anchor lost: %s' % e)
         rec = FnRec()
+        if locals().get('resolved_default'):
+            rec.rewrites.append(dict(rule='R26', what='method not defined in the impl: resolved to the provided method of trait %s (Rust method resolution)' % opts['trait'], count=1))
         emitted_name = opts.get('as', fn)
         rec.name = opts.get('id', (ty + '::' if ty else '') + emitted_name)
         rec.file = rel
@@ -553,6 +613,7 @@ class Unit:
         subs = []
         expandretain = False
         expandselect = False
+        scopeends = []
         sections = []  # (kind, arg, lines)
         cur = None
         for ln in block:
@@ -577,6 +638,12 @@ class Unit:
                     expandretain = True
                 elif c == 'expandselect':
                     expandselect = True
+                elif c == 'expandselect?':
+                    expandselect = 'optional'
+                elif c == 'scopeend':
+                    rule, rest = a.split(None, 1)
+                    rx, repl = parse_bt(rest)
+                    scopeends.append((rule, rx, repl))
                 elif c in ('sub', 'sub?'):
                     rule, rest = a.split(None, 1)
                     rx, repl = parse_bt(rest)
@@ -641,7 +708,9 @@ class Unit:
                 body_text = body_text[:j] + '/*VXCANCEL*/' + body_text[j:]
             rec.rewrites.append(dict(rule='R3', what='cancel point before every awaiting statement', count=len(starts)))
         if expandselect:
-            body_text = self.expand_select(body_text, rec)
+            body_text = self.expand_select(body_text, rec, optional=(expandselect == 'optional'))
+        for rule, rx, stmt in scopeends:
+            body_text = self.scope_end(body_text, rx, stmt, rec, rule)
         if expandretain:
             body_text = self.expand_retain(body_text, rec)
         body_new = self.apply_rules(body_text, rec, subs)
